@@ -69,15 +69,19 @@ with RootOk (G : env) : sty -> expr -> Prop :=
 | RO_Arr : forall u n len el i els,
     (match els with ACons ChPos _ ANil => false | _ => true end) = true ->
     ElemsOk G el (N.to_nat len) els -> RootOk G (SArr u n len el) (EAgg i els)
-(* record aggregate: positional in field order, or named (any order, every field once) *)
+(* record aggregate: positional in field order, then named (any order), then possibly `others` for the remaining
+   fields when they are of one type; every field once *)
 with FieldsOk (G : env) : list (ident * sty) -> list (ident * sty) -> args -> Prop :=
 | FO_Nil : forall all, FieldsOk G all [] ANil
 | FO_Pos : forall all ft fs e r,
     RootOk G (snd ft) e -> FieldsOk G all fs r -> FieldsOk G all (ft :: fs) (ACons ChPos e r)
 | FO_Named : forall all fs f x e r,
-    find_field all f = Some x -> existsb (fun y => fst y =? o_id f) fs = true ->
+    find_field all f = Some x -> existsb (fun y => fst y =? o_id f) fs = true -> args_has_pos r = false ->
     RootOk G (snd x) e -> FieldsOk G all (filter (fun y => negb (fst y =? o_id f)) fs) r ->
     FieldsOk G all fs (ACons (ChName f) e r)
+| FO_Others : forall all ft fs e,
+    forallb (fun y => sty_eqb (snd y) (snd ft)) fs = true -> RootOk G (snd ft) e ->
+    FieldsOk G all (ft :: fs) (ACons ChOthers e ANil)
 with ElemsOk (G : env) : sty -> nat -> args -> Prop :=
 | EO_Nil : forall el, ElemsOk G el 0 ANil
 | EO_Pos : forall el n e r, RootOk G el e -> ElemsOk G el n r -> ElemsOk G el (S n) (ACons ChPos e r)
